@@ -21,7 +21,7 @@ METHODS = ['emit', 'callback', 'disconnect', 'enter_room', 'leave_room',
 WRONG = [None, 0, '', [], {}, b'', 5.5, True]
 
 
-def build(is_async):
+def build(is_async, with_cb=True):
     """One host with a local client on '/' (room 'r', one outstanding
     callback) and on the sentinel namespace '/s'."""
     log = []
@@ -59,7 +59,9 @@ def build(is_async):
         if w.script.get('cb_raises'):
             raise RuntimeError('scripted callback fault')
     # one callback outstanding, issued by this host for its own client
-    w.api('emit', 'q', 1, to=sid, callback=cb)
+    # (with_cb=False: the client has never been the target of one)
+    if with_cb:
+        w.api('emit', 'q', 1, to=sid, callback=cb)
     cl.drain()
     frames = [f for f in w.drain(t) if f[0] == 'pkt' and f[1] == 2]
     cbid = None
@@ -184,12 +186,14 @@ def _short(enc, m):
     return enc + ':' + repr(m)[:90]
 
 
-def run_sequence(is_async, items, fault=None):
+def run_sequence(is_async, items, fault=None, with_cb=True):
     """items: [(encoding, message template)] where '@SID@' / '@CB@' stand
     for the local client's sid on '/' and its outstanding callback id.
     Returns list of (key, msg)."""
     v = []
-    cl, w, t, sid, sids, fired, log, cbid = build(is_async)
+    cl, w, t, sid, sids, fired, log, cbid = build(is_async, with_cb)
+    if cbid is None:
+        cbid = 1
     mgr = w.sio.manager
     try:
         if fault == 'disc_raises':
@@ -217,6 +221,20 @@ def run_sequence(is_async, items, fault=None):
         for (enc, _), m in zip(items, msgs):
             mgr.feed.append(_encode(enc, m))
         mgr.feed.append(sentinel(7))
+        # messages that cannot legitimately change membership (callback
+        # messages, non-dicts, undecodable items) are also followed by a
+        # foreign emit *with callback* to the very client they named
+        harmless = all(not isinstance(m, dict) or
+                       m.get('method') in ('callback', 'bogus', None)
+                       for m in msgs)
+        if any(isinstance(m, dict) and m.get('host_id') == 'H0' and
+               m.get('method') != 'callback' for m in msgs):
+            harmless = False      # echoes are judged by "nothing changed"
+        if harmless and fault is None:
+            mgr.feed.append(pickle.dumps({
+                'method': 'emit', 'event': 'sentinel2', 'data': 8,
+                'namespace': '/', 'room': sid, 'skip_sid': None,
+                'callback': (sid, '/', 4242), 'host_id': 'OTHER'}))
         if fault and fault.startswith('listen_raises'):
             k = int(fault.split('@')[1])
             real_listen = mgr._listen
@@ -243,7 +261,7 @@ def run_sequence(is_async, items, fault=None):
         r = w.run(mgr._thread)
         what = f'{"Async" if is_async else ""}PubSubManager ' \
                f'{[_short(e, m) for (e, _), m in zip(items, msgs)]} ' \
-               f'fault={fault}'
+               f'fault={fault} outstanding-callback={with_cb}'
         what = what.replace(sid, '<sid>')
         if r[0] == 'exc':
             v.append(('C15/listener-died', f'{what}: the listener raised '
@@ -257,6 +275,14 @@ def run_sequence(is_async, items, fault=None):
         if mgr.feed:
             v.append(('C15/sentinel-lost', f'{what}: {len(mgr.feed)} '
                       f'message(s) left unprocessed'))
+        if harmless and fault is None:
+            got2 = [f for f in frames if f[2] == '/' and
+                    f[4][:1] == ['sentinel2']]
+            if len(got2) != 1 or got2[0][3] is None:
+                v.append(('C15/sentinel2-lost', f'{what}: a foreign emit '
+                          f'with callback to the client named by the bad '
+                          f'message was not delivered afterwards '
+                          f'({got2!r})'))
         if len(items) == 1:
             m = msgs[0]
             if isinstance(m, dict) and m.get('host_id') == 'H0' and \
@@ -323,20 +349,26 @@ def job(args):
     else:
         cases = [(its, fault) for fault, its in fault_cases()]
     for its, fault in cases:
-        n += 1
-        for key, msg in run_sequence(is_async, its, fault):
-            if len(viols) < 30:
-                viols.append((key, msg, {'replay': {
-                    'module': 'mc.checks.c15', 'func': 'replay',
-                    'args': [is_async, common.jsonable(
-                        [list(x) for x in its]), fault]}}))
+        variants = [True]
+        if fault is None and all(
+                not isinstance(m, dict) or m.get('method') in
+                ('callback', 'bogus', None) for e, m in its):
+            variants.append(False)
+        for with_cb in variants:
+            n += 1
+            for key, msg in run_sequence(is_async, its, fault, with_cb):
+                if len(viols) < 30:
+                    viols.append((key, msg, {'replay': {
+                        'module': 'mc.checks.c15', 'func': 'replay',
+                        'args': [is_async, common.jsonable(
+                            [list(x) for x in its]), fault, with_cb]}}))
     return n, viols
 
 
-def replay(is_async, its, fault):
+def replay(is_async, its, fault, with_cb=True):
     common.setup_imports()
     its = [(e, m) for e, m in common.unjson(its)]
-    return run_sequence(is_async, its, fault)
+    return run_sequence(is_async, its, fault, with_cb)
 
 
 def run(tier, seed, result):
